@@ -611,6 +611,15 @@ func modeC08(thorough bool, only string) {
 		ov := n("r0t300d0")
 		add("t-overlap", base, func(in *inst) { in.ups["u1"].setSeq(ov, "r0t300d100", "r2t0d600") },
 			[]step{{0, 1, ov}, {ms(20), 1, ov}, {ms(900), 1, ov}, {ms(3600), 1, ov}}...)
+		if useRedis == "only" {
+			// a slow redis server: the store of a 2 s answer waits in the proxy's store queue behind 14 others for
+			// about 4 s. Whatever reaches the server then, the answer is not served once its lifetime is over
+			rq := n("r0t2d0")
+			add("t-rqueue", base, func(in *inst) {
+				in.redis.delay.Store(int64(300 * time.Millisecond))
+				par(14, func(i int) { in.send("udp", "127.0.1.1", mkq(n("r0t60d0")), 4*time.Second, nil) })
+			}, one(rq, 0, 4700, 5200)...)
+		}
 		if thorough {
 			add("t-nx30", base, nil, one(n("r3t600d0fA"), 0, 15000, 28000, 32500)...)
 			add("t-nodata30", base, nil, one(n("r0t300d0fN"), 0, 10000, 32500)...)
